@@ -312,7 +312,8 @@ MatcherAgrees ==        \* evaluated once per level (when the level is entered)
     (mode = "route" /\ out = "run" /\ idx = First(opts)) =>
         \A i \in 1..Len(opts) :
             LET r == BT(opts[i].pat, 1, path, 1, TRUE)
-            IN /\ r.ok <=> Matches(opts[i].pat, path)
-               /\ ~Ambiguous(opts[i].pat, path)
-               /\ r.ok => r.g = Groups(opts[i].pat, path)
+                ms == MatchSet(opts[i].pat, path)
+            IN /\ r.ok <=> ms # {}
+               /\ Cardinality(ms) <= 1
+               /\ r.ok => r.g \in ms
 =============================================================================
